@@ -54,6 +54,12 @@ pub broadcast proof fn lemma_enter_exit(c0: Context, c1: Context, c2: Context)
 {
     assert(c1.scopes().drop_last() =~= c0.scopes());
 }
+/// C07: the analysis of `c` happens in a scope of its own, opened on top of the scopes of `c0`, with nothing bound yet
+pub open spec fn fresh_scope(c0: Context, c: Context) -> bool { c.scopes() == c0.scopes().push(Map::<Seq<char>, (symbols::SymbolId, Type)>::empty()) }
+/// C07: exactly the bindings of `c0` are visible in `c` (only declarations bind; every scope opened since has been left)
+pub open spec fn same_scopes(c0: Context, c: Context) -> bool { c.scopes() == c0.scopes() }
+/// C07: `c` is inside one scope opened on top of the scopes of `c0` (which are all still there, untouched)
+pub open spec fn one_scope_deeper(c0: Context, c: Context) -> bool { c.scopes().len() == c0.scopes().len() + 1 && c.scopes().drop_last() == c0.scopes() }
 pub open spec fn cond1(c: bool, k: SemanticErrorKind) -> Seq<SemanticErrorKind> { if c { seq![k] } else { Seq::empty() } }
 
 // ---- C06: operators map to the graph operator of the same meaning ------------------------------
